@@ -128,7 +128,7 @@ func writeEvidence(prop, tier string, seed int64, a *aggregate, sg map[string]in
 		"coverage":    cov,
 		"assumptions": []string{
 			"sampling, not proof: seeded search over schedules, histories and faults",
-			"scheduling points exist at synchronisation operations, handler entries and goroutine starts; between them the race detector (C10) is the monitor",
+			"scheduling points exist at synchronisation operations, channel operations, handler entries and goroutine starts, and (in part of the schedules) at read-side file-system calls and at the entries of a seed-chosen few per mille of the server's functions; inside the remaining windows the race detector (all of C10, a quarter of C01's workers) is the monitor",
 			"the instrumented copy is built with Go 1.26.8 (testing/synctest); the shipped binary uses the repository's toolchain",
 			"LSP messages are delivered reliably and in order (stdio pipe); no loss/duplication of protocol messages is injected",
 		},
